@@ -44,7 +44,10 @@
                                                                       defaults.READ_POLICIES and READ_SUBS hold
      engine_items_pin, engine_array_pin      DataRead.normal_items   = the generator `items` of the normal engine (the list it
                                                                       yields) / np.array of it over Sections.body_lines
-                              (FuncsPinInspect, FuncsPinEngine; import DataRead / Sections: not re-exported here)
+     parse_section_pin        SectionParse.parse_section (parse_body) on Sections.body_lines
+                                                                    = the whole of reader.parse_header_items_section (with the
+                                                                      translated SectionParser.__init__ / __call__, read_line)
+                              (FuncsPinInspect, FuncsPinEngine, FuncsPinParseSection; import DataRead / Sections: not re-exported here)
 
    One file per pinned function or group (FuncsPinConfigure, FuncsPinSectionType, FuncsPinRoute,
    FuncsPinSectionParse, FuncsPinItems, FuncsPinStandardize, FuncsPinWriter, FuncsPinNum, FuncsPinParser, FuncsPinParserInit,
